@@ -150,21 +150,24 @@ def doc(rng, mode):
     def pick(n):
         return [rng.choice(NAMES) for _ in range(n)]
     well, par, cur = pick(rng.randint(0, 4)), pick(rng.randint(0, 4)), pick(rng.randint(1, 5))
+    # extra ~Version items (duplicated / blank): write() emits a deep copy of this section, so its originals travel through
+    # HeaderItem.__reduce__ on every write
+    ver = pick(rng.choice([0, 0, 1, 2, 3]))
     if mode == "noclash":
-        well, par, cur = ([n for n in s if n != "A:1"] for s in (well, par, cur))
+        well, par, cur, ver = ([n for n in s if n != "A:1"] for s in (well, par, cur, ver))
         cur = cur or ["A"]
-    lines = ["~Version", "VERS. 2.0 :", "WRAP. NO :", "~Well", "STRT.M 10 :", "STOP.M 20 :", "STEP.M 10 :", "NULL. -999.25 :"]
+    lines = ["~Version", "VERS. 2.0 :", "WRAP. NO :"] + ["%s.U%d %d : v%d" % (n, i, i, i) for i, n in enumerate(ver)] + ["~Well", "STRT.M 10 :", "STOP.M 20 :", "STEP.M 10 :", "NULL. -999.25 :"]
     lines += ["%s.U%d %d : w%d" % (n, i, i, i) for i, n in enumerate(well)]
     lines += ["~Parameter"] + ["%s.U%d %d : p%d" % (n, i, i, i) for i, n in enumerate(par)]
     lines += ["~Curve", "DEPT.M : depth"] + ["%s.U%d : c%d" % (n, i, i) for i, n in enumerate(cur)]
     lines += ["~ASCII"] + [" ".join(str(r * 10 + j) for j in range(len(cur) + 1)) for r in range(1, 3)]
-    return "\n".join(lines) + "\n", well, par, cur
+    return "\n".join(lines) + "\n", well, par, cur, ver
 
 
 def roundtrip(run, rng):
     import lasio
     mode = "noclash"   # a ':' inside a mnemonic cannot be written to a header line (C04's conformance), so X:<digits> only occurs in (a)
-    text, well, par, cur = doc(rng, mode)
+    text, well, par, cur, ver = doc(rng, mode)
     mcase = rng.choice(["upper", "preserve", "lower"])
     case = {"text": text, "mnemonic_case": mcase}
     try:
@@ -174,9 +177,9 @@ def roundtrip(run, rng):
         return
     tr = mcase != "preserve"
     cm = {"upper": str.upper, "lower": str.lower, "preserve": (lambda s: s)}[mcase]
-    dup = any(len(s) != len(set(cm(useful(x)).upper() if tr else useful(x) for x in s)) for s in (well, par, ["DEPT"] + cur))
+    dup = any(len(s) != len(set(cm(useful(x)).upper() if tr else useful(x) for x in s)) for s in (well, par, ["DEPT"] + cur, ver))
     run.case(case, nontrivial=dup, tags=["roundtrip", "case=" + mcase, "dup" if dup else "nodup"])
-    exp = {"Well": ["STRT", "STOP", "STEP", "NULL"] + well, "Parameter": par, "Curves": ["DEPT"] + cur}
+    exp = {"Version": ["VERS", "WRAP"] + ver, "Well": ["STRT", "STOP", "STEP", "NULL"] + well, "Parameter": par, "Curves": ["DEPT"] + cur}
     for name, origs in exp.items():
         sec = las.sections[name]
         c2 = dict(case, section=name)
@@ -279,13 +282,13 @@ def replay(run, payload):
         text = case["text"]
 
         def fixed_doc(_rng, _mode):
-            return text, [], [], []
+            return text, [], [], [], []
         # simplest faithful replay: read/write/read and compare session names
         las = lasio.read(text, mnemonic_case=case["mnemonic_case"])
         out = io.StringIO()
         las.write(out, version=case.get("write_version", 2.0))
         las2 = lasio.read(out.getvalue(), mnemonic_case=case["mnemonic_case"])
-        for name in ("Well", "Parameter", "Curves"):
+        for name in ("Version", "Well", "Parameter", "Curves"):
             oracle(run, las.sections[name], dict(case, section=name))
             if las.sections[name].keys() != las2.sections[name].keys():
                 run.fail("roundtrip-sessions", case, {})
